@@ -26,6 +26,7 @@ func init() {
 			{"C07.cli", "signal handler cancels the root context that every command receives; Execute error exits non-zero", 4, c07Cli},
 			{"C07.side-goroutine-errors", "the error a bare goroutine leaves in a variable of its starter is consulted before success is reported", 3, func(c *Ctx) { c.sideGoroutineErrors(func(string) bool { return true }) }},
 			{"C07.commands-propagate", "in the commands a failed (interrupted) context-taking operation makes the command fail", 15, c07CommandsPropagate},
+			{"C07.retry-observes-ctx", "no retry loop repeats a failed context-taking operation without consulting the context", 1, c07RetryObservesCtx},
 			{"C07.tmp-rename", "rename of the temp file only on the nil edge of assembly; temp in the same directory; deferred removal", 3, c07TmpRename},
 		},
 	})
@@ -488,6 +489,7 @@ func c07ErrIsError(c *Ctx) {
 				},
 			}
 			st := NewState()
+			assumeDominators(st, b)
 			st.V[subj] = Val{N: NNon, Class: ClsOther}
 			if u, ok := subj.(*ssa.UnOp); ok && u.Op == token.MUL {
 				st.V[st.cell(u.X)] = Val{N: NNon, Class: ClsOther}
@@ -562,5 +564,121 @@ func c07CommandsPropagate(c *Ctx) {
 	}
 	if total < 10 {
 		c.bad("commands:ctx-errors", token.NoPos, "only %d context-taking calls found in the command package", total)
+	}
+}
+
+// c07RetryObservesCtx: no retry loop around a cancellable operation without a look at the
+// context.  For every call K of a context-taking, error-returning function that lies on a cycle of
+// its function: from the edge taken when K failed, K must not be reachable again without passing
+// a block that observes the context (a call of ctx.Err() or a receive from ctx.Done()).  K fails
+// with an interruption error once the context is cancelled; a loop that treats every failure as
+// "try again" then spins forever instead of returning the interruption.
+func c07RetryObservesCtx(c *Ctx) {
+	n := 0
+	seenKey := map[string]bool{}
+	for _, fn := range c.Funcs {
+		if fn.Blocks == nil {
+			continue
+		}
+		observes := map[*ssa.BasicBlock]bool{}
+		for _, s := range doneSites(fn) {
+			observes[s.block] = true
+			if s.pred != nil {
+				observes[s.pred] = true
+			}
+		}
+		for _, call := range calls(fn, named("(context.Context).Err")) {
+			observes[call.Block()] = true
+		}
+		instrs(fn, func(b *ssa.BasicBlock, _ int, ins ssa.Instruction) {
+			call, ok := ins.(*ssa.Call)
+			if !ok || errResultIndex(call) < 0 || !inLoop(b) {
+				return
+			}
+			sig := call.Call.Signature()
+			if sig.Params().Len() == 0 || sig.Params().At(0).Type().String() != "context.Context" {
+				return
+			}
+			ei := errResultIndex(call)
+			// the failure edges: Ifs on "err != nil" of this call's error result
+			var errv ssa.Value = call
+			if sig.Results().Len() > 1 {
+				errv = nil
+				for _, r := range *call.Referrers() {
+					if ex, ok := r.(*ssa.Extract); ok && ex.Index == ei {
+						errv = ex
+					}
+				}
+			}
+			if errv == nil {
+				return
+			}
+			for _, blk := range fn.Blocks {
+				iff := lastIf(blk)
+				if iff == nil {
+					continue
+				}
+				cm, truth, ok := cmpOf(iff.Cond)
+				if !ok || (cm.op != token.EQL && cm.op != token.NEQ) || !(isNilConst(cm.x) || isNilConst(cm.y)) {
+					continue
+				}
+				subj := cm.x
+				if isNilConst(cm.x) {
+					subj = cm.y
+				}
+				isErr := false
+				for _, l := range leaves(subj) {
+					if l == errv {
+						isErr = true
+					}
+				}
+				if !isErr {
+					continue
+				}
+				nonNilOnTrue := (cm.op == token.NEQ) == truth
+				fail := blk.Succs[1]
+				if nonNilOnTrue {
+					fail = blk.Succs[0]
+				}
+				key := fmt.Sprintf("%s:retry-after-%s", fnKey(fn), callee(call))
+				if seenKey[key+c.pos(iff.Pos())] {
+					continue
+				}
+				seenKey[key+c.pos(iff.Pos())] = true
+				n++
+				// remove the observing blocks, then ask whether the call is reachable again from the failure edge
+				removed := map[edge]bool{}
+				for ob := range observes {
+					for _, s := range ob.Succs {
+						removed[edge{ob, s}] = true
+					}
+				}
+				again := fail == b || (!observes[fail] && reachableFrom(fail, removed)[b])
+				c.verdict(!again, key, call.Pos(), "after a failure the operation is repeated only past a look at the context (ctx.Err / ctx.Done), or not at all",
+					fmt.Sprintf("%s is called in a loop and, after it failed, can be called again without the context having been consulted: once the context is cancelled it fails with an interruption every time and the loop spins instead of returning (failure edge at %s)", callee(call), c.pos(iff.Pos())))
+			}
+		})
+	}
+	c.ok("retry-loops", token.NoPos, "%d failure edge(s) of context-taking calls inside loops inspected", n)
+}
+
+// assumeDominators seeds a state for an exploration that starts in the middle of a function with
+// the branch conditions known to hold there: for every dominating If one of whose out-edges
+// dominates the start block (target entered only through that edge), the condition is assumed.
+func assumeDominators(st *State, start *ssa.BasicBlock) {
+	for d := start.Idom(); d != nil; d = d.Idom() {
+		iff := lastIf(d)
+		if iff == nil {
+			continue
+		}
+		t, f := d.Succs[0], d.Succs[1]
+		domT := len(t.Preds) == 1 && (t == start || t.Dominates(start))
+		domF := len(f.Preds) == 1 && (f == start || f.Dominates(start))
+		switch {
+		case domT && !domF:
+			st.assume(iff.Cond, true)
+		case domF && !domT:
+			st.assume(iff.Cond, false)
+		}
 	}
 }
